@@ -1871,7 +1871,8 @@ def note_array_from_part_list(
         # pairing of arrays and multipliers)
         non_empty = [part_na for part_na in note_array if len(part_na)]
         divs_per_parts = [part_na[0]["divs_pq"] for part_na in non_empty]
-        lcm = np.lcm.reduce(divs_per_parts)
+        # (a list or group in which no part has a note needs no rescaling)
+        lcm = np.lcm.reduce(divs_per_parts) if len(divs_per_parts) > 0 else 1
         time_multiplier_per_part = [int(lcm / d) for d in divs_per_parts]
         for na, time_mult in zip(non_empty, time_multiplier_per_part):
             na["onset_div"] = na["onset_div"] * time_mult
